@@ -58,6 +58,15 @@ func main() {
 		name := ty.String()
 		back, err := auparse.GetAuditMessageType(name)
 		text, _ := ty.MarshalText()
+		// the bytes belong to the caller: scribbling over them must not change what the type marshals to next time
+		first := string(text)
+		for j := range text {
+			text[j] = '#'
+		}
+		text, _ = ty.MarshalText()
+		if string(text) != first {
+			text = []byte(first + "|aliased|" + string(text))
+		}
 		var tb auparse.AuditMessageType
 		err2 := tb.UnmarshalText(text)
 		again := ty.String()
